@@ -49,7 +49,12 @@ class C01(Prop):
                 "births": [2, 0, 1], "mort": {"mods": 1}, "disease": {"states": 3, "p": [5, 8], "self": True},
                 "stepmod": {"every": 3, "mult": 2}, "obs": {"strats": 3, "concat": True}}
         vary = dict(full, step=1, n_steps=9, pop=6, births=[1, 0], disease=None, obs=None, stepmod={"every": 2, "mult": 3, "vary": True})
-        return [{"spec": full, "histories": self._histories(rng)}, {"spec": vary, "histories": self._histories(rng)}]
+        # the last step taken is longer than the step the clock has afterwards (found with VERIF_SEED=3: F21, second commit)
+        shrink = {"clock": "datetime", "step": 0.5, "n_steps": 7, "pop": 1, "seed": 9015, "crn_keys": 0, "map_size": 100003,
+                  "births": [3], "birth_phase": "time_step", "mort": None, "disease": None,
+                  "stepmod": {"every": 2, "mult": 3, "vary": True}, "obs": None, "order": [3]}
+        return [{"spec": full, "histories": self._histories(rng)}, {"spec": vary, "histories": self._histories(rng)},
+                {"spec": shrink, "histories": self._histories(rng)}]
 
     def generate(self, rng: random.Random, i: int, tier: str):
         return {"spec": enginekit.gen_spec(rng), "histories": self._histories(rng)}
